@@ -4,5 +4,5 @@
 import sys
 sys.path[:0] = ['/repo' + "/pulser-core", '/repo' + "/pulser-simulation", "/verif"]
 from symx.replay import replay
-sys.exit(replay(check='checks.c13', kernel='history', shape={'device': 'virt', 'k': 2, 'first': 15, 'prefix': ['D_g', 'EOM_on']},
-                assignment={'op3': 24}, label='typestate:VAR_EOM'))
+sys.exit(replay(check='checks.c13', kernel='history', shape={'device': 'virt_reuse', 'k': 1, 'first': 24, 'prefix': ['D_g', 'D_g2', 'EOM_on', 'VAR_EOM', 'EOM_on2']},
+                assignment={}, label='typestate:VAR_EOM'))
